@@ -1114,6 +1114,9 @@ Proof. rewrite Nat.add_0_r, firstn_app, Nat.sub_diag, firstn_all. cbn [firstn]. 
 Lemma skipn_common {A} (l r : list A) : skipn (length l + 0) (l ++ r) = r.
 Proof. rewrite Nat.add_0_r, skipn_app, Nat.sub_diag, skipn_all. reflexivity. Qed.
 
+Ltac solve_len :=
+  cbn [klist]; repeat (rewrite app_length || rewrite map_length); cbn [length]; lia.
+
 Lemma mrw_both_longer cmp inner pa ka b len :
   length (map GS pa ++ klist ka) <> len -> length b <> len ->
   merge_rest_with cmp inner pa ka b len =
@@ -1144,8 +1147,7 @@ Proof.
   { cbn [prefix_len eea gseg_eqb]. rewrite Hne, orb_false_r.
     destruct q; cbn [is_nil andb]; [rewrite Hea by reflexivity|]; reflexivity. }
   rewrite Hp, mrw_both_longer;
-    [|cbn [klist]; rewrite !app_length, !map_length; cbn [length]; lia
-     |rewrite !app_length, !map_length; cbn [length]; lia].
+    [|solve_len|solve_len].
   cbn zeta. cbn [klist]. rewrite map_app, app_nil_r. cbn [map].
   rewrite <- (map_length GS q). rewrite firstn_common, !skipn_common.
   cbn [from_path of_path split_path]. apply of_path_list.
@@ -1170,11 +1172,700 @@ Proof.
   rewrite !map_app, !app_nil_r. cbn [map].
   rewrite prefix_len_common. cbn [prefix_len eea gseg_eqb]. rewrite andb_false_r. cbn [orb].
   rewrite mrw_both_longer;
-    [|cbn [klist]; rewrite !app_length, !map_length; cbn [length]; lia
-     |rewrite !app_length, !map_length; cbn [length]; lia].
+    [|solve_len|solve_len].
   cbn zeta.
   replace (Nat.eqb (length q + 0) (length q)) with true by (symmetry; apply Nat.eqb_eq; lia).
   rewrite <- (map_length GS q). rewrite firstn_common, skipn_common.
   cbn [from_path of_path split_path]. fold (leafk y).
   unfold inner_with. rewrite (inner_choice_module_push L (leafk y) HL). apply of_path_list.
+Qed.
+
+(* the key under which Module merges: visibility class and the path without its last segment *)
+Definition mkey (r : tree) : N * list sseg := (vnorm (vis r), path_init r).
+Definition keyof (r : tree) : list (N * list sseg) :=
+  if passthrough r || path_is_empty r then [] else [mkey r].
+Definition keys (res : list tree) : list (N * list sseg) := flat_map keyof res.
+
+Lemma list_eqb_sseg_refl p : list_eqb sseg_eqb p p = true.
+Proof. induction p as [|s p IH]; cbn [list_eqb]; [reflexivity|]. rewrite sseg_eqb_refl, IH. reflexivity. Qed.
+
+Lemma share_module r f :
+  share_prefix r f SPModule = true <->
+  passthrough r = false /\ path_is_empty r = false /\ path_is_empty f = false /\ mkey r = mkey f.
+Proof.
+  unfold share_prefix, passthrough, mkey, same_visibility.
+  destruct (path_is_empty r), (path_is_empty f), (is_some (attrs r)), (contains_comment r);
+    cbn [orb negb]; try (split; [discriminate|intros [? [? [? ?]]]; discriminate]).
+  destruct (N.eqb_spec (vnorm (vis r)) (vnorm (vis f))) as [Ev|Ev]; cbn [negb].
+  - split.
+    + intros H. apply list_eqb_sseg_eq in H. rewrite Ev, H. auto.
+    + intros [_ [_ [_ H]]]. inversion H as [[H1 H2]]. apply list_eqb_sseg_refl.
+  - split; [discriminate|]. intros [_ [_ [_ H]]]. inversion H. contradiction.
+Qed.
+
+Lemma in_keys k res :
+  In k (keys res) <->
+  exists r, In r res /\ passthrough r = false /\ path_is_empty r = false /\ mkey r = k.
+Proof.
+  unfold keys. rewrite in_flat_map. split.
+  - intros [r [Hr Hk]]. exists r. unfold keyof in Hk.
+    destruct (passthrough r), (path_is_empty r); cbn [orb] in Hk; try contradiction.
+    destruct Hk as [Hk|[]]. auto.
+  - intros [r [Hr [H1 [H2 H3]]]]. exists r. split; [exact Hr|].
+    unfold keyof. rewrite H1, H2. left; exact H3.
+Qed.
+
+Lemma no_share res f :
+  ~ In (mkey f) (keys res) -> forall r, In r res -> share_prefix r f SPModule = false.
+Proof.
+  intros Hk r Hr. destruct (share_prefix r f SPModule) eqn:E; [|reflexivity].
+  apply share_module in E. destruct E as [H1 [H2 [_ H3]]]. exfalso. apply Hk.
+  apply in_keys. exists r. auto.
+Qed.
+
+Lemma find_index_none_iff (g : tree -> bool) l : forall i,
+  find_index g i l = None <-> forall r, In r l -> g r = false.
+Proof.
+  induction l as [|x l IH]; intros i; cbn [find_index].
+  - split; [intros _ r []|reflexivity].
+  - destruct (g x) eqn:E.
+    + split; [discriminate|]. intros H. rewrite (H x (or_introl eq_refl)) in E. discriminate.
+    + rewrite IH. split.
+      * intros H r [<-|Hr]; auto.
+      * intros H r Hr. apply H. right; exact Hr.
+Qed.
+
+Lemma find_index_app (g : tree -> bool) l1 x l2 : forall i,
+  (forall r, In r l1 -> g r = false) -> g x = true ->
+  find_index g i (l1 ++ x :: l2) = Some (i + length l1).
+Proof.
+  induction l1 as [|y l1 IH]; intros i H Hx; cbn [app find_index length].
+  - rewrite Hx. f_equal. lia.
+  - rewrite (H y (or_introl eq_refl)). rewrite IH; [f_equal; lia| |exact Hx].
+    intros r Hr. apply H. right; exact Hr.
+Qed.
+
+Lemma apply_at_app (f : tree -> tree) l1 x l2 :
+  apply_at f (length l1) (l1 ++ x :: l2) = l1 ++ f x :: l2.
+Proof.
+  induction l1 as [|y l1 IH]; cbn [app length apply_at]; [reflexivity|].
+  fold (apply_at f). rewrite IH. reflexivity.
+Qed.
+
+Lemma Sorted_app_l {A} (R : A -> A -> Prop) l1 l2 : Sorted R (l1 ++ l2) -> Sorted R l1.
+Proof.
+  induction l1 as [|x l1 IH]; cbn [app]; intros H; [constructor|].
+  inversion H as [|? ? Hs Hd]; subst. constructor; [apply IH; exact Hs|].
+  destruct l1; [constructor|]. cbn [app] in Hd. inversion Hd; subst. constructor; assumption.
+Qed.
+
+Lemma rev_snoc {A} (l : list A) x : rev (l ++ [x]) = x :: rev l.
+Proof. apply rev_unit. Qed.
+
+Lemma R1_facts q x v :
+  passthrough (R1 q x v) = false /\ path_is_empty (R1 q x v) = false /\
+  mkey (R1 q x v) = (vnorm v, q).
+Proof.
+  unfold R1, passthrough, mkey, path_init, path_is_empty. cbn [contains_comment attrs is_some orb kids pre vis].
+  rewrite removelast_snoc. repeat split. destruct q; reflexivity.
+Qed.
+Lemma existsb_cc_leafk xs : existsb contains_comment (map leafk xs) = false.
+Proof. induction xs as [|x xs IH]; cbn [map existsb]; [reflexivity|]. rewrite IH. reflexivity. Qed.
+Lemma R2_facts q xs v :
+  passthrough (R2 q (map leafk xs) v) = false /\ path_is_empty (R2 q (map leafk xs) v) = false /\
+  mkey (R2 q (map leafk xs) v) = (vnorm v, q).
+Proof.
+  unfold R2, passthrough, mkey, path_init, path_is_empty.
+  cbn [contains_comment attrs is_some orb kids pre vis]. rewrite existsb_cc_leafk.
+  repeat split. destruct q; reflexivity.
+Qed.
+
+Lemma nest_R1 q x v : is_slf x = false -> nest_trailing_self (R1 q x v) = R1 q x v.
+Proof.
+  intros H. unfold R1. cbn [nest_trailing_self]. rewrite rev_snoc.
+  destruct x; try reflexivity. discriminate.
+Qed.
+
+Lemma flatten_R1 item q x v : flatten item (R1 q x v) = [R1 q x v].
+Proof. unfold R1. rewrite flatten_unfold. destruct (_ || _); reflexivity. Qed.
+
+Lemma flatten_R2 q xs v :
+  2 <= length xs ->
+  flatten false (R2 q (map leafk xs) v) = map (fun x => R1 q x v) xs.
+Proof.
+  intros Hl. destruct (R2_facts q xs v) as [Hp [He _]].
+  unfold R2 in *. rewrite flatten_unfold, He.
+  unfold passthrough in Hp. apply orb_false_iff in Hp. destruct Hp as [Hc _]. rewrite Hc.
+  cbn [orb].
+  assert (Hs : sole_self (map leafk xs) = false).
+  { destruct xs as [|a [|b r]]; cbn [length] in Hl; try lia. destruct a; reflexivity. }
+  rewrite Hs. clear. induction xs as [|x xs IH]; [reflexivity|].
+  cbn [map flat_map]. rewrite IH. reflexivity.
+Qed.
+
+Section ModuleFix.
+Variable cmp : tree -> tree -> comparison.
+Hypothesis asym : GtAsym cmp.
+
+(* the trees that Module produces on plain inputs *)
+Inductive mkind : tree -> Prop :=
+| MK_pass t : passthrough t = true -> normalize cmp t = t -> mkind t
+| MK_one q x v : okseg q x = true -> mkind (R1 q x v)
+| MK_list q xs v :
+    2 <= length xs -> forallb (okseg q) xs = true -> NoDup xs ->
+    Sorted (le_by cmp) (map leafk xs) -> mkind (R2 q (map leafk xs) v).
+
+Lemma okseg_inv q x : okseg q x = true -> is_slf x = false /\ (q = [] -> salias x = None).
+Proof.
+  unfold okseg. rewrite andb_true_iff, negb_true_iff. intros [H1 H2]. split; [exact H1|].
+  intros ->. cbn [is_nil negb orb] in H2. destruct (salias x); [discriminate|reflexivity].
+Qed.
+
+Lemma normalize_R1 q x v : is_slf x = false -> normalize cmp (R1 q x v) = R1 q x v.
+Proof.
+  intros H. unfold R1, normalize. cbn [vis attrs cmt norm kids pre app].
+  unfold norm_simple. rewrite rev_snoc. destruct x; try discriminate;
+    rewrite ?andb_false_r; try reflexivity; destruct (rev q); reflexivity.
+Qed.
+
+Lemma nrm_leafk x : nrm cmp (leafk x) = leafk x.
+Proof.
+  unfold nrm, leafk. cbn [vis attrs cmt norm kids pre app]. unfold norm_simple. cbn [rev app].
+  destruct x as [n al|[al|]|al|al|]; reflexivity.
+Qed.
+
+Lemma normalize_R2 q xs v :
+  2 <= length xs -> Sorted (le_by cmp) (map leafk xs) ->
+  normalize cmp (R2 q (map leafk xs) v) = R2 q (map leafk xs) v.
+Proof.
+  intros Hl Hs. unfold R2, normalize. cbn [vis attrs cmt].
+  rewrite norm_list_ge2 by (rewrite map_length; exact Hl). cbn [app].
+  rewrite (map_fix (nrm cmp)).
+  - rewrite sorted_sort_id by exact Hs. reflexivity.
+  - intros t Ht. apply in_map_iff in Ht. destruct Ht as [x [<- _]]. apply nrm_leafk.
+Qed.
+
+Lemma mkind_normalize o : mkind o -> normalize cmp o = o.
+Proof.
+  intros [t _ H|q x v H|q xs v Hl Hok Hnd Hs].
+  - exact H.
+  - apply normalize_R1. apply okseg_inv in H. tauto.
+  - apply normalize_R2; assumption.
+Qed.
+
+(* one plain flattened tree meets a list in which nothing shares its key *)
+Lemma push_R1 res q x v :
+  is_slf x = false -> ~ In (vnorm v, q) (keys res) ->
+  add_flattened cmp SPModule res (R1 q x v) = res ++ [R1 q x v].
+Proof.
+  intros Hx Hk. unfold add_flattened.
+  assert (Hn : find_index (fun t => share_prefix t (R1 q x v) SPModule) 0 res = None).
+  { apply find_index_none_iff. apply no_share.
+    destruct (R1_facts q x v) as [_ [_ ->]]. exact Hk. }
+  rewrite Hn, nest_R1 by exact Hx. reflexivity.
+Qed.
+
+Lemma share_R1 r q x v :
+  passthrough r = false -> path_is_empty r = false -> mkey r = (vnorm v, q) ->
+  share_prefix r (R1 q x v) SPModule = true.
+Proof.
+  intros H1 H2 H3. apply share_module. destruct (R1_facts q x v) as [_ [He Hm]].
+  rewrite Hm. auto.
+Qed.
+
+Lemma merge_into res r l2 q x v :
+  ~ In (vnorm v, q) (keys res) ->
+  passthrough r = false -> path_is_empty r = false -> mkey r = (vnorm v, q) ->
+  add_flattened cmp SPModule (res ++ r :: l2) (R1 q x v) =
+  res ++ merge cmp SPModule r (R1 q x v) :: l2.
+Proof.
+  intros Hk H1 H2 H3. unfold add_flattened.
+  rewrite (find_index_app _ res r l2 0).
+  - cbn [Nat.add]. apply (apply_at_app (fun t => merge cmp SPModule t (R1 q x v))).
+  - apply no_share. destruct (R1_facts q x v) as [_ [_ ->]]. exact Hk.
+  - apply share_R1; assumption.
+Qed.
+
+Lemma leafk_plen xs : Forall (fun t => path_len t = 1) (map leafk xs).
+Proof. apply Forall_forall. intros t Ht. apply in_map_iff in Ht. destruct Ht as [x [<- _]]. reflexivity. Qed.
+
+Lemma rebuild_tail res q v : forall rest done,
+  ~ In (vnorm v, q) (keys res) ->
+  Sorted (le_by cmp) (map leafk (done ++ rest)) ->
+  fold_left (add_flattened cmp SPModule) (map (fun x => R1 q x v) rest)
+            (res ++ [R2 q (map leafk done) v]) =
+  res ++ [R2 q (map leafk (done ++ rest)) v].
+Proof.
+  induction rest as [|y rest IH]; intros done Hk Hs; cbn [map fold_left].
+  - rewrite app_nil_r. reflexivity.
+  - destruct (R2_facts q done v) as [F1 [F2 F3]].
+    rewrite (merge_into res _ [] q y v Hk F1 F2 F3).
+    rewrite merge_R2_R1 by apply leafk_plen.
+    replace (map leafk done ++ [leafk y]) with (map leafk (done ++ [y]))
+      by (rewrite map_app; reflexivity).
+    replace (done ++ y :: rest) with ((done ++ [y]) ++ rest) in * by (rewrite <- app_assoc; reflexivity).
+    rewrite sorted_sort_id.
+    + apply IH; assumption.
+    + rewrite map_app in Hs. eapply Sorted_app_l. exact Hs.
+Qed.
+
+Lemma add_tree_fix res o :
+  mkind o -> (passthrough o = false -> ~ In (mkey o) (keys res)) ->
+  add_tree cmp SPModule res o = res ++ [o].
+Proof.
+  intros [t Hp _|q x v Hok|q xs v Hl Hok Hnd Hs] Hk.
+  - unfold add_tree. unfold passthrough in Hp. rewrite Hp. reflexivity.
+  - destruct (R1_facts q x v) as [F1 [F2 F3]]. specialize (Hk F1). rewrite F3 in Hk.
+    unfold add_tree. unfold passthrough in F1. rewrite F1, flatten_R1. cbn [fold_left].
+    apply push_R1; [|exact Hk]. apply okseg_inv in Hok. tauto.
+  - destruct (R2_facts q xs v) as [F1 [F2 F3]]. specialize (Hk F1). rewrite F3 in Hk.
+    unfold add_tree. unfold passthrough in F1. rewrite F1, flatten_R2 by exact Hl.
+    destruct xs as [|x1 [|x2 xr]]; cbn [length] in Hl; try lia.
+    cbn [map fold_left]. cbn [forallb] in Hok. apply andb_true_iff in Hok. destruct Hok as [Ho1 Hok].
+    apply andb_true_iff in Hok. destruct Hok as [Ho2 _].
+    destruct (okseg_inv _ _ Ho1) as [S1 A1]. destruct (okseg_inv _ _ Ho2) as [S2 A2].
+    rewrite (push_R1 res q x1 v S1 Hk).
+    destruct (R1_facts q x1 v) as [G1 [G2 G3]].
+    rewrite (merge_into res _ [] q x2 v Hk G1 G2 G3).
+    assert (Hne : x1 <> x2).
+    { inversion Hnd as [|? ? Hnin _]; subst. intros ->. apply Hnin. left; reflexivity. }
+    assert (Hneb : sseg_eqb x1 x2 = false).
+    { destruct (sseg_eqb x1 x2) eqn:E; [|reflexivity]. apply sseg_eqb_eq in E. contradiction. }
+    rewrite merge_R1_R1; [|exact Hneb|].
+    + assert (Hs2 : Sorted (le_by cmp) (map leafk [x1; x2])).
+      { change (x1 :: x2 :: xr) with ([x1; x2] ++ xr) in Hs. rewrite map_app in Hs.
+        eapply Sorted_app_l. exact Hs. }
+      change [leafk x1; leafk x2] with (map leafk [x1; x2]).
+      rewrite sorted_sort_id by exact Hs2.
+      apply (rebuild_tail res q v xr [x1; x2] Hk). exact Hs.
+    + intros Hq. rewrite sseg_eea_noalias; auto.
+Qed.
+
+Lemma regroup_fix_gen O : forall res,
+  Forall mkind O -> NoDup (keys (res ++ O)) ->
+  fold_left (add_tree cmp SPModule) O res = res ++ O.
+Proof.
+  induction O as [|o O IH]; intros res Hk Hnd; cbn [fold_left].
+  - rewrite app_nil_r. reflexivity.
+  - inversion Hk as [|? ? Ho HO]; subst.
+    rewrite add_tree_fix; [|exact Ho|].
+    + rewrite IH; [rewrite <- app_assoc; reflexivity|exact HO|].
+      rewrite <- app_assoc. exact Hnd.
+    + intros Hp. unfold keys in Hnd. rewrite flat_map_app in Hnd. cbn [flat_map] in Hnd.
+      assert (Hne : path_is_empty o = false).
+      { destruct Ho as [t Hpt _|q x v _|q xs v _ _ _ _].
+        - rewrite Hp in Hpt. discriminate.
+        - apply R1_facts.
+        - apply R2_facts. }
+      unfold keyof at 2 in Hnd. rewrite Hp, Hne in Hnd. cbn [orb app] in Hnd.
+      apply NoDup_remove_2 in Hnd. intros Hin. apply Hnd. apply in_or_app. left. exact Hin.
+Qed.
+
+(* B: a list of Module normal forms with pairwise different keys is a fixed point of one pass *)
+Theorem module_nf_fix O :
+  Forall mkind O -> NoDup (keys O) -> step cmp Module O = O.
+Proof.
+  intros Hk Hnd. unfold step. cbn [with_granularity].
+  rewrite (map_fix (normalize cmp)).
+  - unfold regroup. apply (regroup_fix_gen O []); assumption.
+  - intros o Ho. apply mkind_normalize. rewrite Forall_forall in Hk. auto.
+Qed.
+End ModuleFix.
+
+(* A: the first pass on plain flattened imports without repetition builds such a list *)
+Definition flat_dup (x y : tree) : bool :=
+  same_visibility x y && list_eqb sseg_eqb (pre x) (pre y).
+Fixpoint nodup_flat (l : list tree) : bool :=
+  match l with
+  | [] => true
+  | x :: r => negb (existsb (flat_dup x) r) && nodup_flat r
+  end.
+Definition mod_plain (f : tree) : bool :=
+  match f with
+  | Node p None _ None false =>
+      match rev p with x :: rq => okseg (rev rq) x | [] => false end
+  | _ => false
+  end.
+Definition flats (es : list ev) : list tree :=
+  flat_map (fun e => match e with EFlat f => [f] | EPass _ => [] end) es.
+Definition items (r : tree) : list (list sseg) :=
+  match r with
+  | Node p None _ _ _ => [p]
+  | Node q (Some L) _ _ _ => map (fun t => q ++ pre t) L
+  end.
+Definition fresh (f : tree) (res : list tree) : Prop :=
+  forall r, In r res -> passthrough r = false -> same_visibility r f = true ->
+            ~ In (pre f) (items r).
+
+Lemma mod_plain_inv f :
+  mod_plain f = true -> exists q y v, f = R1 q y v /\ okseg q y = true.
+Proof.
+  destruct f as [p [l|] v [a|] [|]]; cbn [mod_plain]; try discriminate.
+  destruct (rev p) as [|x rq] eqn:E; [discriminate|]. intros H.
+  apply rev_cons_eq in E. subst p. exists (rev rq), x, v. split; [reflexivity|exact H].
+Qed.
+
+Lemma nodup_flat_sound l :
+  nodup_flat l = true -> ForallOrdPairs (fun x y => flat_dup x y = false) l.
+Proof.
+  induction l as [|x r IH]; cbn [nodup_flat]; [constructor|].
+  rewrite andb_true_iff, negb_true_iff. intros [H1 H2]. constructor; [|apply IH; exact H2].
+  apply Forall_forall. intros y Hy. destruct (flat_dup x y) eqn:E; [|reflexivity].
+  rewrite <- H1. symmetry. apply existsb_exists. exists y. auto.
+Qed.
+
+Lemma NoDup_snoc {A} (l : list A) a : NoDup l -> ~ In a l -> NoDup (l ++ [a]).
+Proof.
+  intros H1 H2. eapply Permutation_NoDup; [apply Permutation_cons_append|].
+  constructor; assumption.
+Qed.
+
+Lemma keyof_nonpass r :
+  passthrough r = false -> path_is_empty r = false -> keyof r = [mkey r].
+Proof. intros H1 H2. unfold keyof. rewrite H1, H2. reflexivity. Qed.
+Lemma keys_app l1 l2 : keys (l1 ++ l2) = keys l1 ++ keys l2.
+Proof. apply flat_map_app. Qed.
+
+Lemma same_vis_R v v' q x q' x' :
+  vnorm v = vnorm v' -> same_visibility (Node q x v None false) (Node q' x' v' None false) = true.
+Proof. intros H. unfold same_visibility. cbn [vis]. rewrite H. apply N.eqb_refl. Qed.
+
+Section ModuleRun.
+Variable cmp : tree -> tree -> comparison.
+Hypothesis asym : GtAsym cmp.
+
+Definition MInv (res : list tree) : Prop := Forall (mkind cmp) res /\ NoDup (keys res).
+Definition ev_okm (e : ev) : Prop :=
+  match e with
+  | EPass t => passthrough t = true /\ normalize cmp t = t
+  | EFlat f => mod_plain f = true
+  end.
+
+Lemma sort_leafk xs :
+  exists xs', sort_by cmp (map leafk xs) = map leafk xs' /\ Permutation xs xs'.
+Proof.
+  destruct (Permutation_map_inv leafk xs (sort_perm _ cmp (map leafk xs))) as [xs' [H1 H2]].
+  exists xs'. auto.
+Qed.
+
+(* the merged list: a Module normal form whose items are those of xs *)
+Lemma mkind_sorted q xs v :
+  2 <= length xs -> forallb (okseg q) xs = true -> NoDup xs ->
+  exists xs', sort_by cmp (map leafk xs) = map leafk xs' /\ Permutation xs xs' /\
+              mkind cmp (R2 q (map leafk xs') v).
+Proof.
+  intros Hl Hok Hnd. destruct (sort_leafk xs) as [xs' [E HP]]. exists xs'.
+  split; [exact E|]. split; [exact HP|]. apply MK_list.
+  - rewrite <- (Permutation_length HP). exact Hl.
+  - rewrite <- (forallb_perm _ _ _ HP). exact Hok.
+  - eapply Permutation_NoDup; eauto.
+  - rewrite <- E. apply sort_by_sorted. exact asym.
+Qed.
+
+Lemma step_flat res f :
+  MInv res -> mod_plain f = true -> fresh f res ->
+  MInv (add_flattened cmp SPModule res f) /\
+  forall f2, flat_dup f f2 = false -> fresh f2 res -> fresh f2 (add_flattened cmp SPModule res f).
+Proof.
+  intros [Hk Hnd] Hp Hfr. destruct (mod_plain_inv f Hp) as [q [y [vf [-> Hoy]]]].
+  destruct (R1_facts q y vf) as [Fp [Fe Fm]].
+  unfold add_flattened.
+  destruct (find_index (fun t => share_prefix t (R1 q y vf) SPModule) 0 res) as [i|] eqn:Ef.
+  - apply find_index_spec in Ef. destruct Ef as [_ [r [En Hsh]]]. rewrite Nat.sub_0_r in En.
+    destruct (apply_at_split (fun t => merge cmp SPModule t (R1 q y vf)) (fun _ => true) res i r En)
+      as [l1 [l2 [E1 [E2 _]]]].
+    rewrite E2. apply share_module in Hsh. destruct Hsh as [Rp [Re [_ Rm]]]. rewrite Fm in Rm.
+    assert (Hr : mkind cmp r).
+    { rewrite Forall_forall in Hk. apply Hk. rewrite E1. apply in_elt. }
+    assert (Hin : In r res) by (rewrite E1; apply in_elt).
+    (* the merged tree: same key, items = old items + y *)
+    assert (Hmerge : exists xs', merge cmp SPModule r (R1 q y vf) = R2 q (map leafk xs') (vis r) /\
+                                 mkind cmp (R2 q (map leafk xs') (vis r)) /\
+                                 vnorm (vis r) = vnorm vf /\
+                                 forall z, In z xs' -> z = y \/ In (q ++ [z]) (items r)).
+    { destruct Hr as [t Hpt _|q' x v Hox|q' xs v Hl Hok Hndx Hs].
+      - rewrite Rp in Hpt. discriminate.
+      - destruct (R1_facts q' x v) as [_ [_ Gm]]. rewrite Gm in Rm. inversion Rm as [[Hv Hq]].
+        subst q'. cbn [vis].
+        assert (Hxy : x <> y).
+        { intros ->. apply (Hfr _ Hin Rp).
+          - apply same_vis_R; exact Hv.
+          - cbn [items R1 pre]. left; reflexivity. }
+        assert (Hneb : sseg_eqb x y = false).
+        { destruct (sseg_eqb x y) eqn:E; [|reflexivity]. apply sseg_eqb_eq in E. contradiction. }
+        destruct (okseg_inv _ _ Hox) as [_ Ax]. destruct (okseg_inv _ _ Hoy) as [_ Ay].
+        rewrite merge_R1_R1; [|exact Hneb|intros Hq; rewrite sseg_eea_noalias; auto].
+        change [leafk x; leafk y] with (map leafk [x; y]).
+        destruct (mkind_sorted q [x; y] v) as [xs' [E [HP Hm]]].
+        + cbn [length]. lia.
+        + cbn [forallb]. rewrite Hox, Hoy. reflexivity.
+        + constructor; [intros [H|[]]; congruence|]. constructor; [intros []|constructor].
+        + exists xs'. rewrite E. split; [reflexivity|]. split; [exact Hm|]. split; [cbn [R1 R2 vis]; congruence|].
+          intros z Hz. apply (Permutation_in _ (Permutation_sym HP)) in Hz.
+          destruct Hz as [<-|[<-|[]]]; [right; cbn [items R1]; left; reflexivity|left; reflexivity].
+      - destruct (R2_facts q' xs v) as [_ [_ Gm]]. rewrite Gm in Rm. inversion Rm as [[Hv Hq]].
+        subst q'. cbn [vis].
+        assert (Hyn : ~ In y xs).
+        { intros Hy. apply (Hfr _ Hin Rp).
+          - apply same_vis_R; exact Hv.
+          - cbn [items R2 R1 pre]. rewrite map_map. apply in_map_iff. exists y. auto. }
+        rewrite merge_R2_R1 by apply leafk_plen.
+        replace (map leafk xs ++ [leafk y]) with (map leafk (xs ++ [y]))
+          by (rewrite map_app; reflexivity).
+        destruct (mkind_sorted q (xs ++ [y]) v) as [xs' [E [HP Hm]]].
+        + rewrite app_length. cbn [length]. lia.
+        + rewrite forallb_app. cbn [forallb]. rewrite Hok, Hoy. reflexivity.
+        + apply NoDup_snoc; assumption.
+        + exists xs'. rewrite E. split; [reflexivity|]. split; [exact Hm|]. split; [cbn [R1 R2 vis]; congruence|].
+          intros z Hz. apply (Permutation_in _ (Permutation_sym HP)) in Hz.
+          apply in_app_or in Hz. destruct Hz as [Hz|[<-|[]]]; [right|left; reflexivity].
+          cbn [items R2]. rewrite map_map. apply in_map_iff. exists z. auto. }
+    destruct Hmerge as [xs' [Em [Hm [Hv Hitems]]]]. rewrite Em.
+    destruct (R2_facts q xs' (vis r)) as [Np [Ne Nm]].
+    split.
+    + split.
+      * rewrite E1 in Hk. apply Forall_app in Hk. destruct Hk as [K1 K2].
+        inversion K2; subst. apply Forall_app. split; [assumption|]. constructor; assumption.
+      * rewrite E1 in Hnd. rewrite keys_app in *. cbn [keys flat_map] in *.
+        rewrite (keyof_nonpass _ Np Ne), Nm. rewrite (keyof_nonpass _ Rp Re), Rm in Hnd.
+        rewrite Hv. exact Hnd.
+    + intros f2 Hd Hf2 r0 Hr0 Hp0 Hsv Hin0.
+      apply in_app_or in Hr0. destruct Hr0 as [Hr0|[<-|Hr0]].
+      * apply (Hf2 r0); auto. rewrite E1. apply in_or_app. left; exact Hr0.
+      * cbn [items R2] in Hin0. rewrite map_map in Hin0. apply in_map_iff in Hin0.
+        destruct Hin0 as [z [Ez Hz]]. cbn [leafk pre] in Ez.
+        assert (Hsv' : same_visibility r f2 = true).
+        { unfold same_visibility in *. cbn [R2 vis] in Hsv. exact Hsv. }
+        destruct (Hitems z Hz) as [->|Hi].
+        -- unfold flat_dup in Hd. cbn [R1 pre] in Hd. rewrite Ez, list_eqb_sseg_refl, andb_true_r in Hd.
+           unfold same_visibility in *. cbn [R1 vis] in Hd. rewrite <- Hv in Hd. congruence.
+        -- apply (Hf2 r Hin Rp Hsv'). rewrite <- Ez. exact Hi.
+      * apply (Hf2 r0); auto. rewrite E1. apply in_or_app. right. right. exact Hr0.
+  - pose proof (proj1 (find_index_none_iff _ _ _) Ef) as Hns.
+    rewrite nest_R1 by (apply okseg_inv in Hoy; tauto).
+    split.
+    + split.
+      * apply Forall_app. split; [exact Hk|]. constructor; [|constructor]. apply MK_one. exact Hoy.
+      * rewrite keys_app. cbn [keys flat_map]. rewrite (keyof_nonpass _ Fp Fe), Fm, app_nil_r.
+        apply NoDup_snoc; [exact Hnd|]. intros Hin. apply in_keys in Hin.
+        destruct Hin as [r [Hr [H1 [H2 H3]]]].
+        pose proof (Hns r Hr) as Hc. cbn beta in Hc.
+        rewrite (share_R1 r q y vf H1 H2 H3) in Hc. discriminate Hc.
+    + intros f2 Hd Hf2 r0 Hr0 Hp0 Hsv Hin0.
+      apply in_app_or in Hr0. destruct Hr0 as [Hr0|[<-|[]]]; [apply (Hf2 r0); auto|].
+      cbn [items R1] in Hin0. destruct Hin0 as [E|[]].
+      unfold flat_dup in Hd. rewrite Hsv in Hd. cbn [R1 pre] in Hd, E.
+      rewrite E, list_eqb_sseg_refl in Hd. discriminate.
+Qed.
+
+Lemma step_pass res t :
+  MInv res -> passthrough t = true -> normalize cmp t = t ->
+  MInv (res ++ [t]) /\ forall f2, fresh f2 res -> fresh f2 (res ++ [t]).
+Proof.
+  intros [Hk Hnd] Hp Hn. split.
+  - split.
+    + apply Forall_app. split; [exact Hk|]. constructor; [|constructor]. apply MK_pass; assumption.
+    + rewrite keys_app. cbn [keys flat_map]. unfold keyof. rewrite Hp. cbn [orb app].
+      rewrite app_nil_r. exact Hnd.
+  - intros f2 Hf2 r0 Hr0 Hp0. apply in_app_or in Hr0. destruct Hr0 as [Hr0|[<-|[]]].
+    + apply Hf2; assumption.
+    + rewrite Hp in Hp0. discriminate.
+Qed.
+
+Lemma module_run es : forall res,
+  MInv res -> Forall ev_okm es ->
+  ForallOrdPairs (fun x y => flat_dup x y = false) (flats es) ->
+  (forall f, In f (flats es) -> fresh f res) ->
+  MInv (fold_left (add_ev cmp SPModule) es res).
+Proof.
+  induction es as [|e es IH]; intros res Hinv Hes Hnd Hfr; cbn [fold_left]; [exact Hinv|].
+  inversion Hes as [|? ? He Hes']; subst.
+  destruct e as [t|f]; cbn [add_ev ev_okm flats flat_map app] in *.
+  - destruct He as [Hp Hn]. destruct (step_pass res t Hinv Hp Hn) as [Hinv' Hfr'].
+    apply IH; auto.
+  - fold (flats es) in *. inversion Hnd as [|? ? Hf Hnd']; subst.
+    destruct (step_flat res f Hinv He (Hfr f (or_introl eq_refl))) as [Hinv' Hfr'].
+    apply IH; auto. intros f2 Hf2. apply Hfr'.
+    + rewrite Forall_forall in Hf. apply Hf; exact Hf2.
+    + apply Hfr. right; exact Hf2.
+Qed.
+
+Lemma flats_app l1 l2 : flats (l1 ++ l2) = flats l1 ++ flats l2.
+Proof. apply flat_map_app. Qed.
+Lemma flats_map_EFlat l : flats (map EFlat l) = l.
+Proof. induction l as [|x l IH]; cbn [map flats flat_map app]; [reflexivity|]. fold (flats (map EFlat l)). rewrite IH. reflexivity. Qed.
+Lemma flats_events ns : flats (flat_map events ns) = flat_list ns.
+Proof.
+  induction ns as [|n ns IH]; [reflexivity|]. cbn [flat_map]. rewrite flats_app, IH.
+  unfold flat_list at 2. cbn [flat_map]. f_equal. unfold events.
+  destruct (contains_comment n || is_some (attrs n)); [reflexivity|apply flats_map_EFlat].
+Qed.
+Lemma events_okm ns :
+  (forall n, In n ns -> normalize cmp n = n) -> forallb mod_plain (flat_list ns) = true ->
+  Forall ev_okm (flat_map events ns).
+Proof.
+  induction ns as [|n ns IH]; intros Hn Hp; [constructor|].
+  cbn [flat_map]. unfold flat_list in Hp. cbn [flat_map] in Hp. rewrite forallb_app in Hp.
+  apply andb_true_iff in Hp. destruct Hp as [Hp1 Hp2].
+  apply Forall_app. split.
+  - unfold events. destruct (contains_comment n || is_some (attrs n)) eqn:E.
+    + constructor; [|constructor]. split; [exact E|]. apply Hn. left; reflexivity.
+    + apply Forall_forall. intros e He. apply in_map_iff in He. destruct He as [f [<- Hf]].
+      cbn [ev_okm]. rewrite forallb_forall in Hp1. apply Hp1; exact Hf.
+  - apply IH; [|exact Hp2]. intros n' Hn'. apply Hn. right; exact Hn'.
+Qed.
+
+(* regroup_idem for Module, on plain flattened imports without repetition: any reordering of
+   the first output is a fixed point of the next pass *)
+Theorem module_plain_stable ts O' :
+  forallb idem_ok ts = true ->
+  forallb mod_plain (flat_list (map (normalize cmp) ts)) = true ->
+  nodup_flat (flat_list (map (normalize cmp) ts)) = true ->
+  Permutation O' (step cmp Module ts) -> step cmp Module O' = O'.
+Proof.
+  intros Hok Hpl Hnd HP. set (ns := map (normalize cmp) ts) in *.
+  assert (Hinv : MInv (step cmp Module ts)).
+  { unfold step. cbn [with_granularity]. fold ns. rewrite regroup_events.
+    apply module_run.
+    - split; constructor.
+    - apply events_okm; [|exact Hpl]. intros n Hn. unfold ns in Hn. apply in_map_iff in Hn.
+      destruct Hn as [t [<- Ht]]. rewrite forallb_forall in Hok.
+      destruct (idem_ok_inv t (Hok t Ht)). apply normalize_idem; auto.
+    - rewrite flats_events. apply nodup_flat_sound. exact Hnd.
+    - intros f _ r []. }
+  destruct Hinv as [Hk Hn]. apply module_nf_fix.
+  - apply Forall_forall. intros o Ho. rewrite Forall_forall in Hk. apply Hk.
+    eapply Permutation_in; eauto.
+  - eapply Permutation_NoDup; [|exact Hn]. unfold keys.
+    apply Permutation_flat_map. apply Permutation_sym. exact HP.
+Qed.
+
+Theorem pipeline_idem_module_plain grp reorder ts :
+  forallb idem_ok ts = true ->
+  forallb mod_plain (flat_list (map (normalize cmp) ts)) = true ->
+  nodup_flat (flat_list (map (normalize cmp) ts)) = true ->
+  pipeline cmp Module grp reorder (concat (pipeline cmp Module grp reorder ts)) =
+  pipeline cmp Module grp reorder ts.
+Proof.
+  intros H1 H2 H3. apply pipeline_idem_stable; [exact asym|].
+  intros O' HP. apply (module_plain_stable ts O'); assumption.
+Qed.
+End ModuleRun.
+
+(* ------------------------------------------------------------------ *)
+(* 8. Module, Crate, One on a run in which every declaration has attributes or a comment:
+   nothing is flattened or merged (imports.rs:229-232) *)
+Definition merging (g : granularity) : bool :=
+  match g with Module | GCrate | One => true | _ => false end.
+
+Lemma fold_add_pass cmp m ts : forall res,
+  forallb passthrough ts = true -> fold_left (add_tree cmp m) ts res = res ++ ts.
+Proof.
+  induction ts as [|t ts IH]; intros res H; cbn [fold_left].
+  - rewrite app_nil_r. reflexivity.
+  - cbn [forallb] in H. apply andb_true_iff in H. destruct H as [Ht Hts].
+    unfold add_tree at 2. unfold passthrough in Ht. rewrite Ht.
+    rewrite IH by exact Hts. rewrite <- app_assoc. reflexivity.
+Qed.
+Lemma regroup_all_pass cmp m ts : forallb passthrough ts = true -> regroup cmp m ts = ts.
+Proof. intros H. unfold regroup. apply (fold_add_pass cmp m ts [] H). Qed.
+
+Lemma passthrough_normalize cmp t : passthrough (normalize cmp t) = passthrough t.
+Proof.
+  unfold passthrough. rewrite cc_normalize. unfold normalize.
+  destruct (norm_fields cmp t [] (vis t) (attrs t) (cmt t)) as [_ Fa]. rewrite Fa. reflexivity.
+Qed.
+
+Lemma with_granularity_merging cmp g ts :
+  merging g = true -> forallb passthrough ts = true -> with_granularity cmp g ts = ts.
+Proof. destruct g; try discriminate; intros _ H; cbn [with_granularity]; apply regroup_all_pass; exact H. Qed.
+
+Theorem pass_stable cmp g ts O' :
+  GtAsym cmp -> merging g = true ->
+  forallb idem_ok ts = true -> forallb passthrough ts = true ->
+  Permutation O' (step cmp g ts) -> step cmp g O' = O'.
+Proof.
+  intros Ha Hg Hok Hp HP. unfold step in *.
+  assert (Hpn : forallb passthrough (map (normalize cmp) ts) = true).
+  { rewrite forallb_forall in *. intros n Hn. apply in_map_iff in Hn. destruct Hn as [t [<- Ht]].
+    rewrite passthrough_normalize. apply Hp; exact Ht. }
+  rewrite (with_granularity_merging cmp g _ Hg Hpn) in HP.
+  assert (He : forall o, In o O' -> normalize cmp o = o /\ passthrough o = true).
+  { intros o Ho. apply (Permutation_in _ HP) in Ho. apply in_map_iff in Ho.
+    destruct Ho as [t [<- Ht]]. rewrite forallb_forall in Hok, Hp.
+    destruct (idem_ok_inv t (Hok t Ht)). split; [apply normalize_idem; auto|].
+    rewrite passthrough_normalize. apply Hp; exact Ht. }
+  rewrite (map_fix (normalize cmp) O') by (intros o Ho; apply (He o Ho)).
+  apply with_granularity_merging; [exact Hg|]. apply forallb_forall. intros o Ho. apply (He o Ho).
+Qed.
+
+Lemma pipeline_idem_pass cmp g grp reorder ts :
+  GtAsym cmp -> merging g = true ->
+  forallb idem_ok ts = true -> forallb passthrough ts = true ->
+  pipeline cmp g grp reorder (concat (pipeline cmp g grp reorder ts)) = pipeline cmp g grp reorder ts.
+Proof.
+  intros Ha Hg H1 H2. apply pipeline_idem_stable; [exact Ha|].
+  intros O' HP. apply (pass_stable cmp g ts O'); assumption.
+Qed.
+
+(* Props-form statements for Module *)
+Lemma regroup_idem_module_partial (cmp : tree -> tree -> comparison) (ts O' : list tree) :
+  GtAsym cmp -> forallb idem_ok ts = true ->
+  forallb mod_plain (flat_list (map (normalize cmp) ts)) = true ->
+  nodup_flat (flat_list (map (normalize cmp) ts)) = true ->
+  Permutation O' (step cmp Module ts) -> step cmp Module O' = O'.
+Proof. intros Ha. apply module_plain_stable; exact Ha. Qed.
+Lemma pipeline_idem_module_partial (cmp : tree -> tree -> comparison) (grp reorder : bool)
+      (ts : list tree) :
+  GtAsym cmp -> forallb idem_ok ts = true ->
+  forallb mod_plain (flat_list (map (normalize cmp) ts)) = true ->
+  nodup_flat (flat_list (map (normalize cmp) ts)) = true ->
+  pipeline cmp Module grp reorder (concat (pipeline cmp Module grp reorder ts)) =
+  pipeline cmp Module grp reorder ts.
+Proof. intros Ha. apply pipeline_idem_module_plain; exact Ha. Qed.
+
+(* the Module witness is plain: only the repetition is outside the hypotheses *)
+Lemma dup_module_plain :
+  forallb mod_plain (flat_list (map (normalize cmp15) w_dup_module)) = true /\
+  nodup_flat (flat_list (map (normalize cmp15) w_dup_module)) = false.
+Proof. vm_compute. split; reflexivity. Qed.
+
+(* ------------------------------------------------------------------ *)
+(* 9. corollaries of C11 for the sorts of reorder.rs (mod / extern crate declarations, names) *)
+From V Require C11.Ord C11.Model C11.Lemmas.
+
+Lemma isort_perm_idem (A : Type) (cmp : A -> A -> comparison) :
+  V.C11.Ord.TotalPreorder cmp -> forall l l' : list A,
+  (forall x y, In x l -> In y l -> cmp x y = Eq -> x = y) ->
+  Permutation l' (V.C11.Ord.isort cmp l) -> V.C11.Ord.isort cmp l' = V.C11.Ord.isort cmp l.
+Proof.
+  intros TP l l' Hu HP.
+  assert (HP' : Permutation l' l).
+  { eapply Permutation_trans; [exact HP|]. apply Permutation_sym, V.C11.Ord.isort_perm. }
+  apply (V.C11.Ord.sort_unique TP); [exact HP'|].
+  intros x y Hx Hy. apply Hu; eapply Permutation_in; eauto.
+Qed.
+
+Lemma stable_sort_idem (A : Type) (cmp : A -> A -> comparison) (srt : list A -> list A) :
+  V.C11.Ord.TotalPreorder cmp ->
+  (forall l, Permutation l (srt l) /\ V.C11.Ord.SortedBy cmp (srt l) /\
+             V.C11.Ord.StableWrt cmp l (srt l)) ->
+  forall l, srt (srt l) = srt l.
+Proof.
+  intros TP H l.
+  assert (Hs : forall k, srt k = V.C11.Ord.isort cmp k).
+  { intros k. destruct (H k) as [H1 [H2 H3]]. apply (V.C11.Ord.any_stable_sort_agrees TP); assumption. }
+  rewrite (Hs (srt l)). apply V.C11.Ord.sorted_isort_id. apply H.
+Qed.
+
+Lemma sort_names_idem l : V.C11.Model.sort_names (V.C11.Model.sort_names l) = V.C11.Model.sort_names l.
+Proof.
+  unfold V.C11.Model.sort_names. apply V.C11.Ord.sorted_isort_id.
+  apply V.C11.Ord.isort_sorted. exact V.C11.Lemmas.vs_total_preorder.
+Qed.
+Lemma sort_items_idem e l :
+  V.C11.Model.sort_items e (V.C11.Model.sort_items e l) = V.C11.Model.sort_items e l.
+Proof.
+  unfold V.C11.Model.sort_items. apply V.C11.Ord.sorted_isort_id.
+  apply V.C11.Ord.isort_sorted. apply V.C11.Lemmas.items_total_preorder.
 Qed.
